@@ -72,8 +72,9 @@ pub fn gen_bigram_ext(rng: &mut Rng, nr: usize, nl: usize, min_k: usize, max_k: 
     // more than 8 templates half of the time, so that the dual connector has a matrix part
     let k = if max_k > 9 && rng.chance(1, 2) { 9 + rng.below(max_k - 8) } else { min_k + rng.below(max_k.min(8) - min_k + 1) };
     // feature pools per side; strings may be shared across positions
-    let rpool: Vec<String> = ["A", "B", "C", "B1:x,y", "R\"q", "名詞"].iter().map(|s| s.to_string()).collect();
-    let lpool: Vec<String> = ["a", "b", "c", "x,y", "l\"q", "動詞"].iter().map(|s| s.to_string()).collect();
+    // (features ending in white space: the readers must not trim what is part of a feature)
+    let rpool: Vec<String> = ["A", "B", "C", "B1:x,y", "R\"q", "名詞", "W ", "\u{3000}"].iter().map(|s| s.to_string()).collect();
+    let lpool: Vec<String> = ["a", "b", "c", "x,y", "l\"q", "動詞", "w ", "\u{3000}"].iter().map(|s| s.to_string()).collect();
     let row = |rng: &mut Rng, pool: &Vec<String>| -> Vec<String> {
         let len = if rng.chance(1, 4) { rng.below(k + 1) } else { k };
         (0..len)
